@@ -20,7 +20,8 @@ Delta(s, s2) ==
     IN first \o SubSeq(s2.ev, base + 1, Len(s2.ev))
 
 Entry(c, k, s, s2) == [k |-> k, ev |-> Delta(s, s2), out |-> s2.out, closed |-> s2.closed, rej |-> s2.rej,
-                       gzflux |-> s2.gz, gzdec |-> GzDec(c, s2)]
+                       gzflux |-> s2.gz, gzdec |-> GzDec(c, s2), gzover |-> s2.gz /\ Len(GzDec(c, s2)) > s2.maxb,
+                       maxb |-> s2.maxb]
 Changed(s, s2) == s2.ev # s.ev \/ s2.out # s.out \/ s2.closed # s.closed \/ s2.gz # s.gz \/ s2.enc # s.enc
 
 Walk(c, w) ==
@@ -41,8 +42,31 @@ GenInit == /\ \E c \in GenCfgs :
                 \/ c.mode = "server" /\ \E x \in ReqIdx : InitWith(c, ReqWire(x))
                 \/ c.mode = "client" /\ \E x \in RespIdx : InitWith(c, RespWire(x))
            /\ trail = <<>> /\ eofs = <<>> /\ done = FALSE
+(* C04: limits placed relative to the wire: header block size -1/0/+1, body size -1/0/+1 (server limit and
+   per-request override), gzip bodies with limits around the decoded and the encoded size *)
+CONSTANTS LimWidth, GzIdx, GzFrs
+LimDeltas == (0 - LimWidth)..LimWidth
+NoLimit == [BaseCfg EXCEPT !.maxBody = Huge, !.maxHdr = Huge]
+FirstBody(w) == LET ms == Msgs(OneShot(NoLimit, w, TRUE).ev) IN IF ms = <<>> THEN 0 ELSE Len(ms[1].body)
+Nat0(n) == IF n < 0 THEN 0 ELSE n
+LimCfgs(w) ==
+    LET hsz == HdrEnd(w, 1)
+        bl == FirstBody(w) IN
+    {[BaseCfg EXCEPT !.maxHdr = hsz + d] : d \in {x \in LimDeltas : hsz + x >= 1}}
+    \cup {[BaseCfg EXCEPT !.maxBody = Nat0(bl + d)] : d \in LimDeltas}
+    \cup {[BaseCfg EXCEPT !.override = Nat0(bl + d), !.maxBody = mb] : d \in LimDeltas, mb \in {1, 1000000}}
+GzCfgs(g) ==
+    LET dl == Len(GzTable[g].dec)
+        el == Len(GzTable[g].enc) IN
+    {[BaseCfg EXCEPT !.decompress = TRUE, !.gz = GzTable, !.maxBody = Nat0(n + d)] : n \in {dl, el}, d \in LimDeltas}
+    \cup {[BaseCfg EXCEPT !.decompress = TRUE, !.gz = GzTable], [BaseCfg EXCEPT !.decompress = FALSE, !.gz = GzTable]}
+    \cup {[BaseCfg EXCEPT !.decompress = TRUE, !.gz = GzTable, !.override = Nat0(dl + d), !.maxBody = 1] : d \in LimDeltas}
+GenInitL == /\ \/ \E x \in ReqIdx : \E c \in LimCfgs(ReqWire(x)) : InitWith(c, ReqWire(x))
+               \/ \E g \in GzIdx, fr \in GzFrs, t \in TAILs : \E c \in GzCfgs(g) : InitWith(c, GzWire(g, fr, t))
+            /\ trail = <<>> /\ eofs = <<>> /\ done = FALSE
 Compute == /\ ~done /\ done' = TRUE
            /\ LET wk == Walk(cfg, wire) IN trail' = wk.tr /\ eofs' = wk.eo
            /\ UNCHANGED <<vars, step>>
 GenSpec == GenInit /\ [][Compute]_<<vars, step, trail, eofs, done>>
+GenSpecL == GenInitL /\ [][Compute]_<<vars, step, trail, eofs, done>>
 =============================================================================
